@@ -400,7 +400,7 @@ theorem stringToFloat64_table (f32 f64 : F → List Nat) (i : StrInfo) :
 theorem bigIntToFloat64_table (f32 f64 : F → List Nat) (v : Int) :
     runGuards (env f32 f64) (.big v) Gen.CoerceDispatch.bigIntToFloat64.guards Gen.CoerceDispatch.bigIntToFloat64.res =
       some (Val.flt <$> finOrOverflow (bigToF64 v)) := by
-  simp [Gen.CoerceDispatch.bigIntToFloat64, runGuards, Res.eval, env, raws5, fBigToF64]
+  simp [Gen.CoerceDispatch.bigIntToFloat64, runGuards, Cond.eval, Res.eval, env, raws5, fBigToF64]
 
 /-- The calls `stringToInt64` / `stringToFloat` / `stringToBigInt` make on the text, in order, with
     their arguments — in particular base 10 and 64 bits for `ParseInt`, base 10 then base 16 on
